@@ -330,7 +330,7 @@ class SInt:
 
 
 def is_sym(v):
-    return isinstance(v, (SInt, SBool, SBV, SFloatTab, SStr, SBytes, Union))
+    return isinstance(v, (SInt, SBool, SBV, SFloatTab, SStr, SBytes, Union, SReal))
 
 
 def zi(x):
@@ -646,6 +646,42 @@ def bv_to_int(x):
     return SInt(z3.BV2Int(x.e, False), 0, (1 << x.w) - 1)
 
 
+class SReal:
+    """Exact real arithmetic stand-in for a double (used only where rounding is stated to be outside the claim)."""
+
+    __slots__ = ("e",)
+
+    def __init__(self, e):
+        self.e = e
+
+    def __repr__(self):
+        return "SReal(<%d>)" % self.e.get_id()
+
+
+def zr(x):
+    if isinstance(x, SReal):
+        return x.e
+    if isinstance(x, float):
+        from fractions import Fraction
+        f = Fraction(x)
+        return z3.RealVal("%d/%d" % (f.numerator, f.denominator))
+    if isinstance(x, int):
+        return z3.RealVal(x)
+    raise Unsupported("not a real: %r" % (x,))
+
+
+class RealTable:
+    """A constant C array of doubles read with a symbolic index: an uninterpreted function with one axiom per entry."""
+
+    def __init__(self, name, values):
+        self.name = name
+        self.values = list(values)
+        self.fn = z3.Function("tab_" + name, z3.IntSort(), z3.RealSort())
+
+    def axioms(self):
+        return [self.fn(z3.IntVal(i)) == zr(v) for i, v in enumerate(self.values)]
+
+
 class SFloatTab:
     """A double that is a function of a symbolic integer with a finite range: list of (z3 Bool, float),
     exhaustive and disjoint.  Produced by  <symbolic int> * <concrete double>."""
@@ -950,6 +986,9 @@ def merge(c, a, b, grec=None):
         return mk_str([merge(c, x, y) for x, y in zip(str_chars(a), str_chars(b))], str_kind(a))
     if isinstance(a, Ptr) and isinstance(b, Ptr) and a.arr is b.arr:
         return Ptr(a.arr, merge(c, a.off, b.off, grec), a.ctype)
+    if isinstance(a, SReal) or isinstance(b, SReal):
+        if isinstance(a, (SReal, float)) and isinstance(b, (SReal, float)):
+            return SReal(z3.If(c, zr(a), zr(b)))
     if isinstance(a, float) and isinstance(b, float):
         return SFloatTab([(c, a), (neg(c), b)])
     # heterogeneous: union
